@@ -469,11 +469,12 @@ Definition copy_like h i s o (same : bool) : heap * outcome :=
       end
   | true, false =>
       let p := getbox h (pbox o) in
+      (* other_data is read (copied when it is one of the receiver's own rows) BEFORE self.empty() *)
       let h0 := empty_all h s in
       match pindex (phs s) p with
       | Some k =>
           match nth_error (rowrefs h0 s) k with
-          | Some d => (copy_tp (put_row h0 d (getrow h0 (sdata o))) s o, XNone)
+          | Some d => (copy_tp (put_row h0 d (getrow h (sdata o))) s o, XNone)
           | None => (h0, XErr EIndex)
           end
       | None =>
@@ -488,7 +489,7 @@ Definition copy_like h i s o (same : bool) : heap * outcome :=
             match pindex ps p with
             | Some k =>
                 match nth_error rs k with
-                | Some d => (copy_tp (put_row h4 d (getrow h4 (sdata o))) s1 o, XNone)
+                | Some d => (copy_tp (put_row h4 d (getrow h (sdata o))) s1 o, XNone)
                 | None => (h4, XErr EIndex)
                 end
             | None => (h4, XErr EUndefPhase)
